@@ -271,7 +271,9 @@ class UnionParser(AbstractParser[Tuple[Type[T], ...], Optional[T]]):
 
                 parser = get_parser(t, cls, extras)
 
-                if isinstance(parser, AbstractParser):
+                # Under `recursive_classes` a dataclass member is wrapped in a
+                # `RecursionSafeParser`: it is still dispatched on by its tag.
+                if isinstance(parser, AbstractParser) and not (tag and is_dataclass(t)):
                     parsers_list.append(parser)
 
                 elif is_dataclass(t):
